@@ -745,3 +745,208 @@ Proof.
     discriminate.
   - apply A5. exact Hv.
 Qed.
+
+(* ---- receive side: P DATA, application reads / close; WINDOW_UPDATEs written by the client ---- *)
+Definition send_same (s s' : cstream) : Prop :=
+  cs_id s' = cs_id s /\ cs_flow s' = cs_flow s /\ cs_end_sent s' = cs_end_sent s /\ cs_reset s' = cs_reset s /\
+  cs_peer_ended s' = cs_peer_ended s /\ cs_peer_reset s' = cs_peer_reset s /\ cs_forgotten s' = cs_forgotten s.
+
+Lemma SR_send_same : forall i s s' m0, SR i s m0 -> send_same s s' -> SR i s' m0.
+Proof.
+  intros i s s' m0 H (E1 & E2 & E3 & E4 & E5 & E6 & E7). unfold SR, cs_done in *.
+  rewrite E1, E2, E3, E4, E5, E6, E7. exact H.
+Qed.
+
+Lemma F2_map_left : forall i h cs ms, Forall2 (SR i) cs ms -> (forall s, send_same s (h s)) ->
+  Forall2 (SR i) (map h cs) ms.
+Proof. induction 1; intros Hh; simpl; constructor; auto. eapply SR_send_same; eauto. Qed.
+
+Lemma R_map_recv : forall c m h fin, R c m -> (forall s, send_same s (h s)) ->
+  R (set_cstreams (set_cin c fin) (map h (cc_streams c))) m.
+Proof.
+  intros c m h fin HR Hh. dR HR. unfold R. cbn. repeat split; auto; try lia.
+  - apply F2_map_left; assumption.
+  - apply desc_map; auto. intros s. apply (Hh s).
+Qed.
+
+Lemma F2_upd_right : forall i sid g cs ms, Forall2 (SR i) cs ms ->
+  (forall c0 m0, SR i c0 m0 -> SR i c0 (g m0)) -> Forall2 (SR i) cs (upd_ms sid g ms).
+Proof. induction 1 as [|c0 m0 cs ms H0 H IH]; intros Hg; simpl; constructor; auto. destruct (ms_id m0 =? sid); auto. Qed.
+
+Lemma R_upd_ms_right : forall c m sid g, R c m ->
+  (forall i c0 m0, SR i c0 m0 -> SR i c0 (g m0)) -> (forall s, ms_id (g s) = ms_id s) ->
+  R c (set_streams m (upd_ms sid g (m_streams m))).
+Proof.
+  intros c m sid g HR Hg Hid. dR HR. unfold R. cbn. repeat split; auto; try lia.
+  - apply F2_upd_right; auto.
+  - apply Forall_upd_ms; auto. intros s Hs. rewrite Hid. exact Hs.
+  - apply Forall_upd_ms; auto. intros s Hs. rewrite Hid. exact Hs.
+Qed.
+
+Lemma R_set_c_conn_win : forall c m w, R c m -> R c (set_c_conn_win m w).
+Proof. intros c m w HR. dR HR. unfold R. cbn. repeat split; auto; lia. Qed.
+
+(* the monitor state after the (possibly absent) WINDOW_UPDATE the client writes *)
+Definition mon_wu (m : mon) (sid n : Z) : mon :=
+  if 0 <? n then
+    if sid =? 0 then set_c_conn_win m (m_c_conn_win m + n)
+    else set_streams m (upd_ms sid (ms_add_recv n) (m_streams m))
+  else m.
+
+Lemma mon_steps_wu : forall m sid n, m_hdr_open m = 0 -> m_pending m = [] ->
+  mon_steps m (wu sid n) = Some (mon_wu m sid n).
+Proof.
+  intros m sid n H0 Hp. unfold wu, mon_wu. destruct (0 <? n); [|reflexivity].
+  cbn [mon_steps monitor_step]. rewrite mon_client_open0 by (cbn [frame_len]; auto).
+  destruct (sid =? 0); reflexivity.
+Qed.
+
+Lemma SR_add_recv : forall i c0 m0 d, SR i c0 m0 -> SR i c0 (ms_add_recv d m0).
+Proof. intros. eapply SR_ms_same; eauto. Qed.
+
+Lemma R_mon_wu : forall c m sid n, R c m -> R c (mon_wu m sid n).
+Proof.
+  intros c m sid n HR. unfold mon_wu. destruct (0 <? n); [|exact HR].
+  destruct (sid =? 0); [apply R_set_c_conn_win; exact HR|].
+  apply R_upd_ms_right; auto.
+Qed.
+
+Lemma mon_wu_quiet : forall m sid n, m_hdr_open (mon_wu m sid n) = m_hdr_open m /\ m_pending (mon_wu m sid n) = m_pending m.
+Proof. intros. unfold mon_wu. destruct (0 <? n); [destruct (sid =? 0)|]; split; reflexivity. Qed.
+
+Lemma wu2_ok : forall c m s1 n1 s2 n2, R c m ->
+  mon_steps m (wu s1 n1 ++ wu s2 n2) = Some (mon_wu (mon_wu m s1 n1) s2 n2) /\ R c (mon_wu (mon_wu m s1 n1) s2 n2).
+Proof.
+  intros c m s1 n1 s2 n2 HR. pose proof HR as HR0. dR HR.
+  rewrite mon_steps_app, mon_steps_wu by assumption.
+  destruct (mon_wu_quiet m s1 n1) as [Q1 Q2].
+  rewrite mon_steps_wu by congruence.
+  split; [reflexivity|]. apply R_mon_wu, R_mon_wu. exact HR0.
+Qed.
+
+Lemma send_same_recv : forall s f b, send_same s (cs_set_recv s f b).
+Proof. intros. unfold send_same. cbn. repeat split. Qed.
+
+Lemma upd_cs_map : forall sid f l, upd_cs sid f l = map (fun s => if cs_id s =? sid then f s else s) l.
+Proof. reflexivity. Qed.
+
+Lemma step_app_read : forall c m sid n eof, R c m -> step_ok c m (EAppRead sid n eof).
+Proof.
+  intros c m sid n eof HR. unfold step_ok. cbn [conn_step].
+  destruct (find_cs sid (cc_streams c)) as [s|] eqn:Ef; [|apply noop_ok; exact HR].
+  destruct ((1 <=? n) && (n <=? cs_buf s) && negb (cs_app_closed s) && (negb eof || cs_peer_ended s || cs_peer_reset s));
+    [|apply noop_ok; exact HR].
+  destruct (in_add_ret (cc_in c) n) as [rc f2].
+  destruct (if eof then (0, cs_in s) else in_add_ret (cs_in s) n) as [rs g2].
+  cbn [fst snd].
+  assert (HR' : R (set_cstreams (set_cin c f2) (upd_cs sid (fun s0 => cs_set_recv s0 g2 (cs_buf s - n)) (cc_streams c))) m).
+  { rewrite upd_cs_map. apply R_map_recv; [exact HR|]. intros s0. destruct (cs_id s0 =? sid); [apply send_same_recv|].
+    unfold send_same. repeat split. }
+  destruct (wu2_ok _ m 0 rc sid rs HR') as [E HR2].
+  eexists. split; [exact E|exact HR2].
+Qed.
+
+Lemma send_same_app_closed : forall s, send_same s (cs_set_app_closed s).
+Proof. intros. unfold send_same. cbn. repeat split. Qed.
+
+Lemma step_app_close : forall c m sid, R c m -> step_ok c m (EAppClose sid).
+Proof.
+  intros c m sid HR. unfold step_ok. cbn [conn_step].
+  destruct (find_cs sid (cc_streams c)) as [s|] eqn:Ef; [|apply noop_ok; exact HR].
+  destruct (negb (cs_app_closed s)); [|apply noop_ok; exact HR].
+  destruct (if 0 <? cs_buf s then in_add_ret (cc_in c) (cs_buf s) else (0, cc_in c)) as [rc f2].
+  cbn [fst snd].
+  assert (HR' : R (set_cstreams (set_cin c f2) (upd_cs sid cs_set_app_closed (cc_streams c))) m).
+  { rewrite upd_cs_map. apply R_map_recv; [exact HR|]. intros s0. destruct (cs_id s0 =? sid); [apply send_same_app_closed|].
+    unfold send_same. repeat split. }
+  pose proof HR' as HR0. dR HR0.
+  rewrite mon_steps_wu by assumption.
+  eexists. split; [reflexivity|]. apply R_mon_wu. exact HR'.
+Qed.
+
+(* the peer's DATA frame as the strict peer books it *)
+Definition mon_pdata (m : mon) (sid len : Z) (es : bool) : mon :=
+  mon_peer m (FData sid len es).
+
+Lemma SR_peer_data_right : forall i c0 m0 len es, SR i c0 m0 ->
+  (es = true -> cs_forgotten c0 = true \/ cs_peer_reset c0 = true) ->
+  SR i c0 (let s1 := ms_add_recv (- len) m0 in if es then ms_set_peer_ended s1 else s1).
+Proof.
+  intros i c0 m0 len es HS Hes. cbv zeta. destruct es.
+  - eapply SR_ms_same; [exact HS| | | | | |]; cbn; auto.
+  - apply SR_add_recv. exact HS.
+Qed.
+
+Lemma SR_peer_ended : forall i s m1, SR i s m1 -> SR i (cs_set_peer_ended s) (ms_set_peer_ended m1).
+Proof.
+  intros i s m1 (H1 & H2 & H3 & H4 & H5 & H6 & H7 & H8 & H9).
+  unfold SR, cs_done, ms_closed in *. cbn.
+  repeat split; auto.
+  - intros Hf. specialize (H6 Hf).
+    destruct (ms_cli_reset m1), (ms_peer_reset m1), (ms_peer_ended m1), (ms_cli_closed m1); simpl in *; auto.
+  - intros Hc. apply H7.
+    destruct (ms_cli_reset m1), (ms_peer_reset m1), (ms_peer_ended m1), (ms_cli_closed m1); simpl in *; auto.
+Qed.
+
+Lemma step_peer_data : forall c m sid len pad es, R c m -> step_ok c m (EPeerData sid len pad es).
+Proof.
+  intros c m sid len pad es HR. unfold step_ok. cbn [conn_step].
+  destruct ((0 <=? pad) && (pad <=? len) && (len <=? 16777215)); [|apply noop_ok; exact HR].
+  destruct (find_cs sid (cc_streams c)) as [s|] eqn:Ef; [|apply noop_ok; exact HR].
+  pose proof HR as HRk. dR HRk.
+  destruct (cs_forgotten s || cs_peer_reset s) eqn:Edead.
+  - (* the stream is gone for the read loop: connection credit returned at once *)
+    destruct (in_take (cc_in c) len) as [[[|]|] f1]; try (apply noop_ok; exact HR).
+    destruct (in_add_ret f1 len) as [r f2]. cbn [fst snd].
+    cbn [mon_steps monitor_step ok].
+    set (m1 := mon_peer m (FData sid len es)).
+    assert (HR1 : R (set_cin c f2) m1).
+    { unfold m1. cbn [mon_peer].
+      assert (Hc : R (set_cin c f2) m).
+      { unfold R. cbn. repeat split; auto; lia. }
+      apply R_upd_ms_right; [apply R_set_c_conn_win; exact Hc| |].
+      - intros i c0 m0 HS. cbv zeta. destruct es; [|apply SR_add_recv; exact HS].
+        eapply SR_ms_same; [exact HS| | | | | |]; cbn; auto.
+      - intros s0. cbv zeta. destruct es; reflexivity. }
+    pose proof HR1 as (Q1 & Q2 & _).
+    rewrite mon_steps_wu by assumption.
+    eexists. split; [reflexivity|]. apply R_mon_wu. exact HR1.
+  - destruct (cs_peer_ended s) eqn:Epe; [apply noop_ok; exact HR|].
+    destruct (in_take2 (cc_in c) (cs_in s) len) as [[[|]|] [f1 g1]]; try (apply noop_ok; exact HR).
+    destruct (in_add_ret f1 (pad + (if cs_app_closed s then len - pad else 0))) as [rc f2].
+    destruct (if cs_app_closed s then (0, g1) else in_add_ret g1 (pad + (if cs_app_closed s then len - pad else 0))) as [rs g2].
+    cbn [fst snd]. cbn [mon_steps monitor_step ok].
+    set (buf' := if cs_app_closed s then cs_buf s else cs_buf s + (len - pad)).
+    set (m1 := mon_peer m (FData sid len es)).
+    set (c1 := set_cstreams (set_cin c f2)
+                 (upd_cs sid (fun s0 => let s1 := cs_set_recv s0 g2 buf' in if es then cs_set_peer_ended s1 else s1) (cc_streams c))).
+    assert (HR1 : R c1 m1).
+    { unfold m1, c1. cbn [mon_peer]. unfold R. cbn. repeat split; auto; try lia.
+      - eapply F2_upd_found; eauto.
+        intros m0 HS. cbv zeta.
+        assert (HS1 : SR (cc_init_win c) (cs_set_recv s g2 buf') (ms_add_recv (- len) m0)).
+        { apply SR_add_recv. eapply SR_send_same; [exact HS|apply send_same_recv]. }
+        destruct es; [|exact HS1]. apply SR_peer_ended. exact HS1.
+      - apply Forall_upd_ms; auto. intros s0 Hs0. cbv zeta. destruct es; cbn; exact Hs0.
+      - apply Forall_upd_ms; auto. intros s0 Hs0. cbv zeta. destruct es; cbn; exact Hs0.
+      - apply desc_upd; [assumption|]. intros s0. cbv zeta. destruct es; reflexivity. }
+    destruct (wu2_ok _ m1 0 rc sid rs HR1) as [E HR2].
+    eexists. split; [exact E|exact HR2].
+Qed.
+
+Theorem step_ok_all : forall c m e, R c m -> step_ok c m e.
+Proof.
+  intros c m e HR. destruct e.
+  - apply step_open; assumption.
+  - apply step_send_data; assumption.
+  - apply step_send_end; assumption.
+  - apply step_reset; assumption.
+  - apply step_forget; assumption.
+  - apply step_settings; assumption.
+  - apply step_window_update; assumption.
+  - apply step_peer_rst; assumption.
+  - apply step_goaway; assumption.
+  - apply step_peer_data; assumption.
+  - apply step_app_read; assumption.
+  - apply step_app_close; assumption.
+Qed.
